@@ -38,6 +38,7 @@ class SockWorld:
         self.raise_in_conn_sub = False
         self.on_connect_hooks = []
         self.on_disconnect_hooks = []
+        self.conn_delays = []     # a connection subscriber that takes its time on connected=True
         self.msg_delays = []
         self.sock.subscribe_on_message_received(self._on_msg)
         self.sock.subscribe_on_connection_changed(self._on_conn)
@@ -59,6 +60,10 @@ class SockWorld:
     async def _on_conn(self, *, connected):
         self.conn_events.append((self.loop.time(), connected))
         self.log.add("SUB.conn", connected=connected)
+        if connected and self.conn_delays:
+            d = self.conn_delays.pop(0)
+            self.log.add("SUB.conn_slow", delay=d)
+            await asyncio.sleep(d)
         if connected and self.on_connect_hooks:
             hooks, self.on_connect_hooks = self.on_connect_hooks, []
             for h in hooks:
